@@ -6,6 +6,9 @@ with the template (vc.veq), so the invariant is 'state == template(k)'.  Special
   "__assume__": [formula...]   facts about k / ghost functions assumed when the template is applied
   "__assert__": [(name, formula)...]  extra facts to prove when the template is established (e.g. k within range,
                  which bounds the number of iterations: the loop terminates)
+  "__ghost__": [callable(ex, fr, k)...]  ghost code run at the end of iteration k, before the template is established at
+                 k+1: it may only DEFINE ghost locations indexed by k that the template at k says nothing about (e.g.
+                 SEL(k) := 'this iteration appended'), the standard ghost-array update
 """
 import ast
 import z3
@@ -83,7 +86,8 @@ def run_for(ex, node, fr, seq, spec, ordn):
     if choice == 0:
         k = ctx.fresh(f"k{ordn}")
         ctx.add_pc(z3.And(k >= 0, k < to_z3(n)))
-        _apply(ex, fr, spec.template(ex, fr, k, entry), node)
+        tk = spec.template(ex, fr, k, entry)
+        _apply(ex, fr, tk, node)
         ex.assign(node.target, seq.get(k, ex), fr)
         try:
             ex.exec_block(node.body, fr)
@@ -91,6 +95,8 @@ def run_for(ex, node, fr, seq, spec, ordn):
             return
         except _Continue:
             pass
+        for g in tk.get("__ghost__", []):
+            g(ex, fr, k)
         _establish(ex, fr, spec.template(ex, fr, k + 1, entry), f"{label}.inv-preserved")
         raise PathEnd()
     _apply(ex, fr, spec.template(ex, fr, n, entry), node, keep=())
